@@ -118,8 +118,48 @@ def detect(seed_id, pids, tier="quick"):
     return results
 
 
+def table():
+    """Markdown table of every seeded change: what it needs and which check catches it (from meta.json)."""
+    import glob
+    rows = ["| seeded change | breaks / needs | caught by |", "|---|---|---|"]
+    for d in sorted(glob.glob(os.path.join(SEEDED, "*"))):
+        mp = os.path.join(d, "meta.json")
+        if not os.path.exists(mp):
+            continue
+        m = json.load(open(mp))
+        det = m.get("detection", {})
+        caught = []
+        missed = []
+        for pid, r in sorted(det.items()):
+            if not isinstance(r, dict):
+                continue
+            if r.get("exit") == 1:
+                sig = (r.get("first_sigs") or [""])[0]
+                sig = sig.replace("sig=", "").split(" ")[0][:70]
+                caught.append("%s (`%s`)" % (pid, sig.replace("|", "/")))
+            else:
+                missed.append(pid)
+        own = os.path.basename(d).split("-")[0]
+        if caught:
+            res = "; ".join(caught)
+        elif m.get("detection_note"):
+            res = "**not caught** — " + m["detection_note"]
+        else:
+            res = "**not caught**"
+        if own in missed and caught:
+            res += " (own check %s misses it)" % own
+        title = (m.get("title") or "").replace("|", "/").strip()
+        needs = (m.get("needs_to_manifest") or "").replace("|", "/").replace("\n", " ").strip()
+        if len(needs) > 220:
+            needs = needs[:217] + "..."
+        rows.append("| %s %s | %s | %s |" % (os.path.basename(d), title[:110], needs, res))
+    return "\n".join(rows)
+
+
 if __name__ == "__main__":
-    if sys.argv[1] == "confirm":
+    if sys.argv[1] == "table":
+        print(table())
+    elif sys.argv[1] == "confirm":
         r, ok = confirm(sys.argv[2], sys.argv[3])
         print(json.dumps(r, indent=1)); print("CONFIRMED" if ok else "NOT CONFIRMED")
     elif sys.argv[1] == "detect":
